@@ -249,5 +249,5 @@ def late_lookup_cases(shard, nshards):
 def campaigns(tier):
     th = tier == "thorough"
     return [Campaign("late_lookup", "enum", execute=execute, cases=late_lookup_cases, exhaustive=True, setup=GS.setup),
-            Campaign("commit_sim", "hyp", execute=execute, strategy=strategy, examples=12000 if th else 640,
+            Campaign("commit_sim", "hyp", execute=execute, strategy=strategy, examples=12000 if th else 1280,
                      setup=GS.setup, max_wall=1000 if th else 110, shrink_wall=40)]
